@@ -437,6 +437,13 @@ class Check:
             # the code left the abstraction, or uses something the abstract contracts do not model -- the functions it covers are
             # decided by the fall-back layer alone (weaker, stated bound) instead of ending without a verdict
             fb = self.breach_fallback[res['name']]
+            if isinstance(fb, tuple) and fb[0] == 'breach-only':
+                # this layer may be given up only when the code left its abstraction, not on any other failure of the machinery
+                if not res.get('breach'):
+                    self.log('ENGINE-ERROR in task %s:\n%s' % (res['name'], res['error']))
+                    self.engine_errors = getattr(self, 'engine_errors', 0) + 1
+                    return
+                fb = fb[1]
             res['breach'] = res.get('breach') or res.get('exc') or 'task failed'
             self.log('layer not applicable: task %s left its abstraction (%s); claim for it rests on: %s' % (res['name'], res['breach'][:160], fb))
             self.extra.setdefault('layers_not_applicable', []).append({'task': res['name'], 'reason': res['breach'][:300], 'covered_by': fb})
